@@ -4,6 +4,7 @@ import (
 	"crypto/tls"
 	"fmt"
 	"sort"
+	"strconv"
 	"strings"
 	"testing"
 
@@ -255,7 +256,13 @@ func runC11(t *testing.T, tape *sim.Tape, tier string) *Outcome {
 			var b []byte
 			b = append(b, fmt.Sprintf("*%d\r\n", len(r.Args))...)
 			for i, a := range r.Args {
-				if i > 0 && !strings.ContainsAny(a, "\r\n") && tape.Draw(2, "asstatus") == 1 {
+				if _, err := strconv.Atoi(a); i > 0 && err == nil && tape.Draw(2, "asinteger") == 1 {
+					// a numeric argument as an integer-typed element (:12)
+					b = append(b, ':')
+					b = append(b, a...)
+					b = append(b, "\r\n"...)
+					o.stat("arguments_sent_as_integer_elements", 1)
+				} else if i > 0 && !strings.ContainsAny(a, "\r\n") && tape.Draw(2, "asstatus") == 1 {
 					b = append(b, '+')
 					b = append(b, a...)
 					b = append(b, "\r\n"...)
@@ -463,7 +470,7 @@ func init() {
 	register(&Check{
 		ID: "C11", Bubble: true, Run: runC11,
 		Runs:   map[string]int{"quick": 176, "thorough": 5000},
-		Rule:   "per generated pipeline (1..4 valid requests, <= 420 bytes, in a quarter of them some arguments sent as simple strings, one in six with an additional request of 17..48 arguments): every byte offset 0..len x {half-close, close, reset, reset whose error only one read reports (then end of stream, as on Linux)} x 2 delivery schedules (whole prefix, seeded chunking), plus one reset per offset that drops a drawn amount of undelivered bytes - enumerated completely per pipeline; one pipeline in eight instead ends with a 70 KB text value of CRLF-terminated lines whose cuts are sampled at structural places (after embedded line ends, around powers of two of the payload, inside the terminator); every second run goes through the TLS port instead: a real crypto/tls client (1.2 or 1.3) writes a pipeline of complete requests, optionally a partial one, and ends its stream at once (close_notify or close right behind the last record); pipelines are sampled; distinct = distinct (pipeline, offset, end mode, schedule, drop) tuples; every case ends a stream so all are non-trivial",
+		Rule:   "per generated pipeline (1..4 valid requests, <= 420 bytes, in a quarter of them some arguments sent as simple strings or (numeric ones) as integer-typed elements, one in six with an additional request of 17..48 arguments): every byte offset 0..len x {half-close, close, reset, reset whose error only one read reports (then end of stream, as on Linux)} x 2 delivery schedules (whole prefix, seeded chunking), plus one reset per offset that drops a drawn amount of undelivered bytes - enumerated completely per pipeline; one pipeline in eight instead ends with a 70 KB text value of CRLF-terminated lines whose cuts are sampled at structural places (after embedded line ends, around powers of two of the payload, inside the terminator); every second run goes through the TLS port instead: a real crypto/tls client (1.2 or 1.3) writes a pipeline of complete requests, optionally a partial one, and ends its stream at once (close_notify or close right behind the last record); pipelines are sampled; distinct = distinct (pipeline, offset, end mode, schedule, drop) tuples; every case ends a stream so all are non-trivial",
 		Real:   []string{"redis.Server connection loop, parser, dispatch, executors, connection registry"},
 		Stub:   []string{"transport: simulated net.Conn with FIN / full close / RST", "handler: recording double"},
 		Assume: []string{"the expected handler calls of a completely received request are those of the fault-free run of the same pipeline"},
